@@ -1,6 +1,6 @@
 Require Extraction.
 Require Import ExtrOcamlBasic.
 From Herc Require Import Base.Conv Plumbing.Ticks.
-Extraction "c19_model.ml" conv_anchor time_of_unix configure init_sys step run lineages consumed spec_t0 tick_chain
+Extraction "c19_model.ml" conv_anchor time_of_unix configure init_sys step run lineages consumed spec_t0 spec_tick tick_chain chain_verdicts
   nondecreasing reg_count listed shape mono_times replays_ok elapsed_ticks alone floor_ok floor_time in_range
   z_pack z_unpack ticks times.
